@@ -169,6 +169,25 @@ def run_vft(pid, tier, res=None, finish=True):
     return res.finish()
 
 
+def run_c04(tier):
+    """C04 over the vftable-block space (MC_Vft) and over types that inherit their table (MC_Inherit)"""
+    from . import inherit
+    res = Result("C04", tier)
+    _, cov1 = run_vft("C04", tier, res, finish=False)
+    _, cov2 = inherit.run_inherit("C04", tier, res, finish=False)
+    cov = dict(cov1)
+    for k in ("states", "transitions", "traces_validated_against_impl", "evaluations", "distinct_nontrivial", "model_level_violations"):
+        cov[k] = cov1.get(k, 0) + cov2.get(k, 0)
+    cov["tlc"] = [cov1["tlc"], cov2["tlc"]]
+    cov["checker_cmd"] = cov1["checker_cmd"] + " ; " + cov2["checker_cmd"]
+    cov["executed_actions_inherited_tables"] = cov2.get("executed_actions", 0)
+    cov["executed_actions"] = cov1.get("executed_actions", 0) + cov2.get("executed_actions", 0)
+    res.coverage = cov
+    res.assumptions = ["wrapper bodies are classified by shape; an unrecognised shape is never judged",
+                       "execution on the 64-bit host with conventions normalised; a derived type is executed when its vftable pointer is its first word"]
+    return res.finish()
+
+
 def run_c16(tier):
     """C16 over both the vftable/impl space (MC_Vft) and inheritance chains (MC_Inherit)"""
     from . import inherit
